@@ -49,6 +49,10 @@ fn get_directory(img: &mut Box<dyn img::DiskImage>) -> Result<Directory,DYNERR> 
         ans.entries.push(DirectoryEntry::from_bytes(&buf[offset..offset+ENTRY_SIZE])?);
         offset += ENTRY_SIZE;
     }
+    if u16::from_le_bytes(ans.header.num_files) as usize > ans.entries.len() {
+        log::debug!("bad header: file count {} exceeds directory capacity {}",u16::from_le_bytes(ans.header.num_files),ans.entries.len());
+        return Err(Box::new(Error::BadFormat));
+    }
     return Ok(ans);
 }
 
